@@ -15,7 +15,7 @@ Quick reference
 
     ex = explore(run_once, nthreads=2, bound=2)      # run_once(policy) -> RunResult, must build a FRESH world each call
     ex = explore(run_once, 2, 2, point_filter=f)     # f(RunResult.where[s]) -> bool: pre-empt only where the pending bytecode of
-                                                     # the running worker matters (code object | 'lock' | 'explicit' | None)
+                                                     # the running worker matters ((code object, bytecode offset) | 'lock' | 'explicit' | None)
     for preemptions, res in ex: ...
     ex.complete, ex.runs, ex.completed_bound, ex.stop_reason, ex.nondeterministic
 
@@ -251,8 +251,8 @@ class RunResult:
         self.steps = 0
         self.trace = []                  # [(tid, consecutive steps)]
         self.choices = []                # per step (tid chosen, runnable tids)
-        self.where = []                  # per step: where the PREVIOUSLY running worker is paused (code object of the library
-                                         # frame whose next bytecode is pending | 'lock' | 'explicit' | None): the point a
+        self.where = []                  # per step: where the PREVIOUSLY running worker is paused ((code object, offset of the
+                                         # pending bytecode) of the library frame | 'lock' | 'explicit' | None): the point a
                                          # pre-emption at this step falls on
         self.events = []                 # ('acq'|'rel'|'park'|'tryfail', tid, lockid) in order
         self.parked = [None] * n         # at the end of the run: id of the lock each worker is parked on (deadlock report)
@@ -292,7 +292,7 @@ class _Run:
         self.back = _alloc()
         self.back.acquire()
         self.waiting = [None] * n
-        self.loc = [None] * n             # where each worker is paused: code object | 'lock' | 'explicit' | None (not started)
+        self.loc = [None] * n             # where each worker is paused: (code, offset) | 'lock' | 'explicit' | None (not started)
         self.res = RunResult(n)
         self.events = self.res.events
         self.current = None
@@ -367,7 +367,7 @@ def _worker_main(run, tid, thunk):
 
     def local(frame, event, arg):
         if event == 'opcode':
-            loc[tid] = frame.f_code
+            loc[tid] = (frame.f_code, frame.f_lasti)
             yield_(tid)
         return local
 
